@@ -3,7 +3,7 @@
    (Related statements are grouped into one conjunction per family: Print Assumptions costs about a second per theorem.) *)
 From Coq Require Import ZArith NArith Bool List Reals.
 From Flocq Require Import Core.Core IEEE754.BinarySingleNaN.
-From CppUVerif Require Import lib.CInt lib.Dbl lib.Str lib.CSem gen.Gen_LeafDbl C03_Model C03_Proofs C03_DblProofs C03_Main C03_LeafTie.
+From CppUVerif Require Import lib.CInt lib.Dbl lib.Str lib.CSem gen.Gen_LeafC03 C03_Model C03_Proofs C03_DblProofs C03_Main C03_LeafTie.
 Import ListNotations.
 Local Open Scope Z_scope.
 
